@@ -107,6 +107,11 @@ Definition obs_events (k : nat) (t : tid) (res : result) (sh : shared) (rc : opt
   | _, _ => []
   end.
 
+(* after Lock(): registered = registered[:0], then referencePackage reads sc.packages and
+   writes it when the package is new (the model's map is flattened: over-approximated by a
+   write of LMap) — up to the cache.lookup hook *)
+Definition enter_events (t : tid) : list event := [EWr t LReg; ERd t LMap; EWr t LMap].
+
 Definition gstep_events (d : disc) (k : nat) (g : graph) (t : tid) (st : state) : list event :=
   match nth_error (s_thr st) t with
   | None => []
@@ -118,8 +123,8 @@ Definition gstep_events (d : disc) (k : nat) (g : graph) (t : tid) (st : state) 
           | PWait => []
           | PEnter =>
               match d with
-              | Unguarded => [EWr t LReg]
-              | Guarded => match s_lock st with None => [EAcq t; EWr t LReg] | Some _ => [] end
+              | Unguarded => enter_events t
+              | Guarded => match s_lock st with None => EAcq t :: enter_events t | Some _ => [] end
               end
           | p =>
               let (sh', o) := lstep k g n (s_sh st) p in
@@ -132,7 +137,7 @@ Definition gstep_events (d : disc) (k : nat) (g : graph) (t : tid) (st : state) 
                   | Unguarded => obs_events k t res sh' (result_cell n (s_sh st) p)
                   | Guarded =>
                       ERel t :: obs_events k t res sh' (result_cell n (s_sh st) p) ++
-                      match s_waitq st with w :: _ => [EAcq w; EWr w LReg] | [] => [] end
+                      match s_waitq st with w :: _ => EAcq w :: enter_events w | [] => [] end
                   end
               end
           end
